@@ -63,6 +63,9 @@ func Keccak256(data ...[]byte) []byte {
 	return h.Sum(nil)
 }
 
+// Keccak512 is the legacy (pre-NIST padding) Keccak-512 used by ethash.
+func Keccak512(data []byte) []byte { return keccak512(data) }
+
 func keccak512(data []byte) []byte {
 	h := sha3.NewLegacyKeccak512()
 	h.Write(data)
@@ -317,7 +320,7 @@ func (e *Ethash) datasetItem(i uint32) row {
 
 // Hashimoto returns (mix digest, result) for a seal-free hash and nonce.
 func (e *Ethash) Hashimoto(sealHash []byte, nonce uint64) (mixDigest, result []byte) {
-	const w = ethMixBytes / ethWordBytes        // 32
+	const w = ethMixBytes / ethWordBytes         // 32
 	const mixHashes = ethMixBytes / ethHashBytes // 2
 	n := uint32(e.fullSize / ethHashBytes)
 	s := keccak512(SealInput(sealHash, nonce))
